@@ -105,11 +105,11 @@ var specs = []fnSpec{
 			{goName: "§niR", lean: "niR", kd: kPtr("Unit")},
 			{goName: "§niOk", lean: "niOk", kd: kBool},
 			{goName: "§niValid", lean: "niValid", kd: kBool},
-			{goName: "§addOks", lean: "addOks", kd: kind{k: "list", s: "OpResult"}},
-			{goName: "§addFails", lean: "addFails", kd: kind{k: "list", s: "OpResult"}},
+			{goName: "§addOks", lean: "addOks", kd: kind{k: "list", s: "OpResult", elemNN: true}},
+			{goName: "§addFails", lean: "addFails", kd: kind{k: "list", s: "OpResult", elemNN: true}},
 			{goName: "§addErr", lean: "addErr", kd: kind{k: "status"}},
-			{goName: "§delOks", lean: "delOks", kd: kind{k: "list", s: "OpResult"}},
-			{goName: "§delFails", lean: "delFails", kd: kind{k: "list", s: "OpResult"}},
+			{goName: "§delOks", lean: "delOks", kd: kind{k: "list", s: "OpResult", elemNN: true}},
+			{goName: "§delFails", lean: "delFails", kd: kind{k: "list", s: "OpResult", elemNN: true}},
 			{goName: "§delErr", lean: "delErr", kd: kind{k: "status"}},
 		},
 		oracles: map[string]oracle{
